@@ -73,6 +73,7 @@ func hostEnv(ev *events) starlark.StringDict {
 			return starlark.None, nil
 		}),
 		"struct": starlark.NewBuiltin("struct", starlarkstruct.Make),
+		"obj":    starlark.NewBuiltin("obj", newObj),
 	}
 }
 
@@ -330,7 +331,7 @@ func armGenerated(c *driver.Ctx) {
 		r := c.Rand()
 		bits := r.Intn(32)
 		opts := &syntax.FileOptions{Set: bits&1 != 0, While: bits&2 != 0, TopLevelControl: bits&4 != 0, GlobalReassign: bits&8 != 0, Recursion: bits&16 != 0}
-		p := gen.Generate(r, gen.Config{Opts: *opts, Trace: true, Host: true, Loads: true, MaxStmts: 6 + r.Intn(14)})
+		p := gen.Generate(r, gen.Config{Opts: *opts, Trace: true, Host: true, Loads: true, Templates: true, MaxStmts: 6 + r.Intn(14)})
 		src := gen.Render(p.Stmts, r, p.Options(gen.RandomLayout(r)))
 		c.Note("key=C01 crash generated\nopts=%s\n%s", sl.OptionsString(opts), src)
 		ops := &opcodes{seen: map[uint8]bool{}}
